@@ -37,6 +37,37 @@ Theorem c18_bit_flip_rejected : forall bs b, read_batch bs = Ok (b, []) ->
 Proof. exact read_batch_bit_flip. Qed.
 Print Assumptions c18_bit_flip_rejected.
 
+(* "any corruption of the checksum or of a checksummed byte" beyond single bits (Records/CorruptionProofs.v): any byte from the
+   CRC field to the end replaced by any other value; the stored checksum replaced by any other four bytes; any change
+   confined to four consecutive checksummed bytes (CRC-32C detects every burst of at most 32 bits, in a message of any
+   length) *)
+From KioV Require Import Records.CorruptionProofs.
+Theorem c18_byte_change_rejected : forall bs b, read_batch bs = Ok (b, []) ->
+  bytes_ok bs = true -> sint 4 (slice 8 4 bs) = zlen bs - 12 ->
+  forall i x, (17 <= i < length bs)%nat -> 0 <= x < 256 -> nth i bs 0 <> x ->
+  exists e, read_batch (set_byte i x bs) = Err e.
+Proof. exact read_batch_byte_change_rejected. Qed.
+Print Assumptions c18_byte_change_rejected.
+
+Theorem c18_crc_field_corrupted : forall bs b c', read_batch bs = Ok (b, []) ->
+  bytes_ok bs = true -> sint 4 (slice 8 4 bs) = zlen bs - 12 ->
+  bytes_ok c' = true -> length c' = 4%nat -> c' <> slice 17 4 bs ->
+  exists e, read_batch (firstn 17 bs ++ c' ++ skipn 21 bs) = Err e.
+Proof. exact read_batch_crc_field_corrupted. Qed.
+Print Assumptions c18_crc_field_corrupted.
+
+Theorem c18_crc_detects_bursts : forall pre w w' post, bytes_ok (pre ++ w ++ post) = true ->
+  bytes_ok w' = true -> length w = 4%nat -> length w' = 4%nat -> w <> w' ->
+  crc32c (pre ++ w' ++ post) <> crc32c (pre ++ w ++ post).
+Proof. exact crc32c_burst4. Qed.
+Theorem c18_burst_rejected : forall bs b, read_batch bs = Ok (b, []) ->
+  bytes_ok bs = true -> sint 4 (slice 8 4 bs) = zlen bs - 12 ->
+  forall i w', (21 <= i)%nat -> (i + 4 <= length bs)%nat ->
+  bytes_ok w' = true -> length w' = 4%nat -> w' <> slice i 4 bs ->
+  exists e, read_batch (firstn i bs ++ w' ++ skipn (i + 4) bs) = Err e.
+Proof. exact read_batch_burst4_rejected. Qed.
+Print Assumptions c18_burst_rejected.
+
 (* any truncation of a batch whose records fill the declared length is rejected *)
 Theorem c18_truncation_rejected : forall bs b, read_batch bs = Ok (b, []) ->
   sh_batch_length_matches bs -> records_fill_body bs ->
